@@ -14,7 +14,7 @@ const ruleC15 = "failing (path, document) pairs of the C01 generators, enriched 
 	"Non-trivial: the failure is at the 2nd step or later, or >=2 branches fail at different steps/kinds. Distinct = distinct (path, document, mode)."
 
 func drawC15(rt *rapid.T) *Case {
-	g := gen.NewG(rt, gen.PathOpts{Funcs: true, RootOmit: true, FuncPct: 25, MinSteps: 1})
+	g := gen.NewG(rt, gen.PathOpts{Funcs: true, RootOmit: true, FuncPct: 25, MinSteps: 1, LongPaths: true})
 	p := g.Path()
 	var r gen.Rendered
 	if gen.Uniform(rt, "styled", 4) == 0 {
